@@ -16,8 +16,9 @@
                                                 latch protocol of the repaired code, `Defects.none`).  In particular the
                                                 suspected "leaf scan vs. sibling rebalance" cycle does not exist: the scan
                                                 keeps the root read-latched, the writer needs the root write-latched first.
-  * `reader_writer_deadlock_free_any_defects`   the same with the shipped read latch, PROVIDED no scan re-latches a root
-                                                (every scanned table has more than one page)
+  * `reader_writer_deadlock_free_any_defects`   the same whatever the read latch, for well-formed shapes; with the shipped
+                                                (queueing) read latch no scan is well-formed — a scan latches the root
+                                                through two tree objects — so this covers lookups, descents and writes
   * `readLatchQueuesBehindWriter_witness`       shipped read latch: a scan of a ONE-page table ∥ one writer of that table
                                                 reaches a state with no enabled step (the second read latch of the scanning
                                                 thread queues behind the parked writer).  Observed on the real code and
@@ -29,6 +30,7 @@
 -/
 import AxVerif.Lemmas.Latch
 import AxVerif.Lemmas.Coord
+import AxVerif.Lemmas.NonInterf
 import AxVerif.Model.Serial
 import AxVerif.Thm.C04
 namespace AxVerif.C14
@@ -62,10 +64,10 @@ def TreeOp.isWrite : TreeOp → Bool
   | _ => false
 
 /-- tree-shape hypothesis: the named pages belong to the tree of the named root (`rootOf p` = root of `p`'s tree); with
-    the shipped read latch (`D.readLatchQueuesBehindWriter`) a scan's leaves must moreover not be the root -/
+    the shipped read latch (`D.readLatchQueuesBehindWriter`) no scan is well-formed (it latches the root twice) -/
 def TreeOp.wf (D : Defects) (rootOf : Nat → Nat) : TreeOp → Bool
   | .descent _ => true
-  | .scan r _ leaves => leavesIn D rootOf r leaves
+  | .scan r path leaves => leavesIn D rootOf r path leaves
   | .search r path => pathIn rootOf r path
   | .write r path bal => writeIn rootOf r path bal
 
@@ -157,7 +159,7 @@ theorem guarded_threadProg {D : Defects} {rootOf : Nat → Nat} : ∀ ops : List
 
 /-- **Readers and writers together, whatever the read latch.**  Any number of threads, any mix of scans, lookups,
     descents and writes with any rebalancing, on any trees, provided the shapes are well-formed — which with the shipped
-    read latch includes that no scan's leaf is the root.  (The order in which a rebalancing writer visits siblings, the
+    read latch excludes scans.  (The order in which a rebalancing writer visits siblings, the
     parent's neighbours and frontier pages is arbitrary here; it does not matter because every one of those latches is
     taken under the write latch of the root, which a scan's iterator holds for reading during its whole life.) -/
 theorem reader_writer_deadlock_free_any_defects (D : Defects) (rootOf : Nat → Nat) (threads : List (List TreeOp))
@@ -190,16 +192,16 @@ def exScan : TreeOp := .scan 1 [2] [(2, 3), (3, 3), (4, 2)]
 
 def exWrite : TreeOp := .write 1 [3] [.touch 2, .touch 4, .touch 2, .touch 3, .touch 4, .alloc, .touch 5, .free 4]
 
-example : exScan.wf { readLatchQueuesBehindWriter := true } exRoot = true ∧ exWrite.wf Defects.none exRoot = true ∧
-    (TreeOp.search 1 [3]).wf Defects.none exRoot = true := by decide
+example : exScan.wf Defects.none exRoot = true ∧ exWrite.wf Defects.none exRoot = true ∧
+    exWrite.wf { readLatchQueuesBehindWriter := true } exRoot = true ∧ (TreeOp.search 1 [3]).wf Defects.none exRoot = true := by decide
 
 /-- a scan of a one-page table is well-formed under the repaired latch protocol -/
 example : (TreeOp.scan 1 [] [(1, 4)]).wf Defects.none (fun _ => 1) = true := by decide
 
-theorem leaf_scan_vs_sibling_rebalance_no_deadlock (D : Defects) (s : State)
-    (hr : Reachable D (init ([[exScan, .search 1 [3]], [exWrite], [exWrite, exScan]].map threadProg)) s) :
-    deadlocked D s = false :=
-  reader_writer_deadlock_free_any_defects D exRoot _ (by cases D with | mk b => cases b <;> decide) s hr
+theorem leaf_scan_vs_sibling_rebalance_no_deadlock (s : State)
+    (hr : Reachable Defects.none (init ([[exScan, .search 1 [3]], [exWrite], [exWrite, exScan]].map threadProg)) s) :
+    deadlocked Defects.none s = false :=
+  reader_writer_deadlock_free exRoot _ (by decide) s hr
 
 theorem reachable_runSched {D : Defects} {s0 : State} : ∀ (sched : List Nat) (s : State),
     Reachable D s0 s → Reachable D s0 (runSched D s sched)
@@ -544,5 +546,100 @@ example : Coord.step Coord.Defects.none Coord.State.init .alloc = none := by dec
     snapshots are sound -/
 example : Coord.snapshotsSound (Coord.runOps Coord.Defects.none Coord.State.init
     [.begin, .begin, .commit 2, .begin, .abort 1, .begin, .commit 3, .begin]) = true := by decide
+
+
+/-! ## Statements on different tables: non-interference and commutation -/
+
+open AxVerif.Db.NI in
+/-- **Non-interference.**  In any history of autocommit `SELECT` / `INSERT` / `DELETE` statements, over any catalog
+    (constraints included), the statements on table `a` give the same answers and leave the same rows in `a` — row ids
+    included — whether the statements on the other tables are there or are replaced by `nop`s.  Answers are those of the
+    MVCC machine (`Db.run` without defects), the rows those of the abstract machine it refines. -/
+theorem statements_on_other_tables_do_not_interfere (cat : Catalog) (a : String) (ops : List Op)
+    (hok : ops.all okOp = true) :
+    answersOn a ops (run Defects.none cat ops).2 =
+      answersOn a (eraseOthers a ops) (run Defects.none cat (eraseOthers a ops)).2 ∧
+    proj a (Spec.run cat ops).1.committed = (Spec.run cat (eraseOthers a ops)).1.committed := by
+  have h := noninterference_from a ops (Spec.State.init cat) (Spec.State.init cat) hok (inv_init cat)
+    ⟨rfl, rfl, by simp [Spec.State.init, proj]⟩
+  rw [C04.read_is_snapshot, C04.read_is_snapshot, spec_run_outs, spec_run_outs]
+  refine ⟨h.1, ?_⟩
+  simpa [Spec.run, Spec.runFrom_eq] using h.2
+
+open AxVerif.Db.NI in
+theorem okOp_erase (a : String) : ∀ ops : List Op, ops.all okOp = true → (eraseOthers a ops).all okOp = true
+  | [], _ => rfl
+  | op :: ops, h => by
+    simp only [List.all_cons, Bool.and_eq_true] at h
+    simp only [eraseOthers, List.map_cons, List.all_cons, Bool.and_eq_true]
+    refine ⟨?_, okOp_erase a ops h.2⟩
+    split
+    · exact h.1
+    · rfl
+
+open AxVerif.Db.NI in
+theorem answersOn_erased (a : String) : ∀ (ops : List Op) (outs : List Out),
+    answersOn a (eraseOthers a ops) outs = realAnswers (eraseOthers a ops) outs
+  | [], _ => rfl
+  | op :: ops, [] => by simp [eraseOthers, answersOn, realAnswers]
+  | op :: ops, o :: os => by
+    have ih := answersOn_erased a ops os
+    simp only [eraseOthers, List.map_cons] at ih ⊢
+    by_cases ht : touches a op = true
+    · have hn : isNop op = false := by
+        cases op <;> simp [touches] at ht <;> rfl
+      simp only [ht, if_true, answersOn, realAnswers, hn, Bool.false_eq_true, if_false, ih]
+    · have ht' : touches a op = false := by simpa using ht
+      simp only [ht', Bool.false_eq_true, if_false, answersOn, realAnswers, touches_nop, isNop, if_true, ih]
+
+open AxVerif.Db.NI in
+/-- **The position of a statement does not matter** (catalog without constraints): removing the `nop`s from a history
+    changes no answer and nothing observable of the final rows (tables and values, in order). -/
+theorem nops_do_not_matter (cat : Catalog) (hp : plainCat cat = true) (ops : List Op) (hok : ops.all okOp = true) :
+    realAnswers ops (Spec.run cat ops).2 = realAnswers (dropNops ops) (Spec.run cat (dropNops ops)).2 ∧
+    keys (Spec.run cat ops).1.committed = keys (Spec.run cat (dropNops ops)).1.committed := by
+  have h := sim_from ops (Spec.State.init cat) (Spec.State.init cat) hp hok (inv_init cat) (inv_init cat) ⟨rfl, rfl⟩
+  rw [spec_run_outs, spec_run_outs]
+  refine ⟨h.1, ?_⟩
+  simpa [Spec.run, Spec.runFrom_eq] using h.2
+
+open AxVerif.Db.NI in
+theorem dropNops_erase_swap (a : String) (pre : List Op) (s1 s2 : Stmt) (hne : NI.stmtTable s1 ≠ NI.stmtTable s2) :
+    dropNops (eraseOthers a (pre ++ [.auto s1, .auto s2])) = dropNops (eraseOthers a (pre ++ [.auto s2, .auto s1])) := by
+  simp only [eraseOthers, List.map_append, List.map_cons, List.map_nil, dropNops, List.filter_append, touches]
+  congr 1
+  by_cases h1 : NI.stmtTable s1 = a
+  · have h2 : ¬ NI.stmtTable s2 = a := fun h => hne (h1.trans h.symm)
+    simp [h1, h2, isNop]
+  · by_cases h2 : NI.stmtTable s2 = a
+    · simp [h1, h2, isNop]
+    · simp [h1, h2, isNop]
+
+open AxVerif.Db.NI in
+/-- **Statements on different tables commute** (catalog without constraints).  After any history `pre` of autocommit
+    `SELECT` / `INSERT` / `DELETE` statements, executing `s1` then `s2`, or `s2` then `s1`, where the two are statements on
+    different tables: for every table `a`, the statements on `a` (those of `pre`, and `s1` or `s2` if it is on `a`) give the
+    same answers in both orders, and `a` ends up with the same rows (values, in the same order) in both orders. -/
+theorem statements_on_different_tables_commute (cat : Catalog) (hp : plainCat cat = true) (pre : List Op)
+    (hpre : pre.all okOp = true) (s1 s2 : Stmt) (h1 : simpleStmt s1 = true) (h2 : simpleStmt s2 = true)
+    (hne : NI.stmtTable s1 ≠ NI.stmtTable s2) (a : String) :
+    answersOn a (pre ++ [.auto s1, .auto s2]) (run Defects.none cat (pre ++ [.auto s1, .auto s2])).2 =
+      answersOn a (pre ++ [.auto s2, .auto s1]) (run Defects.none cat (pre ++ [.auto s2, .auto s1])).2 ∧
+    keys (proj a (Spec.run cat (pre ++ [.auto s1, .auto s2])).1.committed) =
+      keys (proj a (Spec.run cat (pre ++ [.auto s2, .auto s1])).1.committed) := by
+  have hok12 : (pre ++ [Op.auto s1, Op.auto s2]).all okOp = true := by simp [List.all_append, hpre, okOp, h1, h2]
+  have hok21 : (pre ++ [Op.auto s2, Op.auto s1]).all okOp = true := by simp [List.all_append, hpre, okOp, h1, h2]
+  obtain ⟨a12, r12⟩ := statements_on_other_tables_do_not_interfere cat a _ hok12
+  obtain ⟨a21, r21⟩ := statements_on_other_tables_do_not_interfere cat a _ hok21
+  obtain ⟨n12, k12⟩ := nops_do_not_matter cat hp _ (okOp_erase a _ hok12)
+  obtain ⟨n21, k21⟩ := nops_do_not_matter cat hp _ (okOp_erase a _ hok21)
+  have hd := dropNops_erase_swap a pre s1 s2 hne
+  constructor
+  · rw [a12, a21, C04.read_is_snapshot, C04.read_is_snapshot, answersOn_erased, answersOn_erased, n12, n21, hd]
+  · rw [r12, r21, k12, k21, hd]
+
+/-- a non-trivial instance: two tables, a history that fills both, then an `INSERT` into one and a `DELETE` on the other -/
+example : NI.plainCat [⟨"t", [⟨"k", .big, false, false⟩], []⟩, ⟨"u", [⟨"k", .big, false, false⟩], []⟩] = true ∧
+    [Op.auto (.ins "t" [[.int 1]]), .auto (.ins "u" [[.int 2], [.int 3]]), .tick].all NI.okOp = true := by decide
 
 end AxVerif.C14
